@@ -14,6 +14,7 @@ bootstrap.ensure()
 
 ID = "C19"
 LEVEL = "exploration"
+TECHNIQUE = "runtime monitoring: multi-threaded stress with sys.monitoring yield injection and a uniqueness monitor"
 RULE = (
     "rounds of 8 (quick) / 16 (thorough) threads x 150-300 name requests over 1-3 engines (iteration and SQL) through "
     "all three request routes (Engine.get_relation_name, LeafRelation construction without a name, materialized() "
